@@ -13,7 +13,7 @@ TRUSTED = ["libxslt / libxml2 are not modelled: the Lean model gives the XSLT 1.
            "the indent=yes serialisation and the re-parse of the function's actual output are judged by the differential oracle only",
            "Python's str.isspace set is the one listed in Model/Normalize.lean"]
 WS = [" ", " ", "  ", "\t", "\n", "\r", "\xa0", "\xa0\xa0", " \xa0", "\x0b", "\x0c", "\x1c", "\x85", " ", "　", "​"]
-WORDS = ["a", "bc", "Hello", "wörld", "x.y", "<tag>", "&amp;", "\U0001F600", "1", "-"]
+WORDS = ["a", "bc", "Hello", "wörld", "x.y", "<tag>", "&amp;", "\U0001F600", "1", "-", "m⁻²", "ﬁeld", "µmol", "…", "½", "Ａ", "´", "e\u0301"]
 PROTECTED = ["markup", "literalLayout", "objectName", "attributeName", "para"]
 XSI = "http://www.w3.org/2001/XMLSchema-instance"
 
